@@ -202,6 +202,22 @@ def _do(kind, st, o):
         elif code == 107: p.pdu_header.set_entity_ids(_ubf(g(r, 0), g(r, 1)), _ubf(g(r, 2), g(r, 3)))
         elif code == 108: p.pdu_header.segment_metadata_flag = h5._e(D.SegmentMetadataFlag, v)
         elif code == 109: p.pdu_header.pdu_type = h5._e(D.PduType, v)
+        elif code == 110:
+            # the value of one byte-field object edited IN PLACE: the PDU is packed, then <field>.value = new value.  While
+            # the field object is still the caller's (the constructor's copy of the PduConfig is shallow) the PDU first
+            # gets an object of its own with the same value and width
+            if v not in (0, 1, 2):
+                raise RuntimeError("bad field")
+            c = p.pdu_header.pdu_conf
+            f = getattr(c, h5._FIELD_ATTR[v])
+            if f is getattr(st.conf, h5._FIELD_ATTR[v]):
+                f = UnsignedByteField(f.value, f.byte_len)
+                setattr(c, h5._FIELD_ATTR[v], f)
+            try:
+                p.pack()
+            except Exception:  # noqa  (whatever the current values pack to is observed by the operations 120)
+                pass
+            f.value = g(r, 1)
         elif code == 120: return _pack(p)
         elif code == 121: return [p.packet_len, p.pdu_data_field_len, p.header_len]
         elif code == 130:
@@ -355,6 +371,196 @@ def impl(op, a):
             out.append([-3])
         out += log + observe(kind, st)
     return out
+
+
+# ------------------------------------------------------------------ explorations outside the model (op 1399)
+# The model's lists hold filestore responses (Finished), generic TLVs (Metadata options) and the fault location is an
+# entity-ID TLV.  The library itself never looks at the class / TLV type of what it is handed (everything with
+# packet_len and pack() is taken), so an application CAN assign a TLV of another class; the statement explored here is
+# the part of C11 that does not depend on what the item is:
+#   an assignment (or construction) that RAISES leaves every view of the PDU, the caller's list and the caller's items
+#   as they were; one that is ACCEPTED leaves packet_len / data-field length = what pack() emits, pack() repeatable,
+#   and the caller's items untouched; the same holds for the next (ordinary) assignment after it.
+from spacepackets.cfdp.tlv import (CfdpTlv, FlowLabelTlv, MessageToUserTlv, FaultHandlerOverrideTlv, FileStoreRequestTlv,
+                                   FileStoreResponseTlv, TlvType, FilestoreActionCode, FilestoreResponseStatusCode)
+from spacepackets.cfdp.defs import FaultHandlerCode
+
+
+class _MyEntityIdTlv(EntityIdTlv):
+    pass
+
+
+X_KINDS = ["fin", "eof", "md"]
+X_ITEM_STYLES = 9
+
+
+def _x_item(l):
+    """a TLV object of one of the library's classes: [style, ...]"""
+    style, r = l[0], list(l[1:])
+    if style == 0: return EntityIdTlv(bytes(r))
+    if style == 1: return CfdpTlv(B._enum(TlvType, g(r, 0)), bytes(r[1:]))
+    if style == 2: return FlowLabelTlv(bytes(r))
+    if style == 3: return MessageToUserTlv(bytes(r))
+    if style == 4: return FaultHandlerOverrideTlv(B._enum(ConditionCode, g(r, 0) % 16 if g(r, 0) % 16 in CCS else 4), FaultHandlerCode(1 + g(r, 1) % 4))
+    if style == 5: return FileStoreRequestTlv(FilestoreActionCode.CREATE_FILE_SNM, bytes(x % 26 + 0x61 for x in r).decode())
+    if style == 6: return FileStoreResponseTlv(FilestoreActionCode.CREATE_FILE_SNM, FilestoreResponseStatusCode.CREATE_SUCCESS,
+                                               bytes(x % 26 + 0x61 for x in r).decode())
+    if style == 7: return _MyEntityIdTlv(bytes(r))
+    return CfdpTlv(TlvType.FILESTORE_RESPONSE, bytes(r))        # a generic TLV that only carries the type code
+
+
+def _x_item_view(t):
+    if t is None:
+        return None
+    try:
+        pk = bytes(t.pack())
+    except Exception as e:  # noqa
+        pk = type(e).__name__
+    return (type(t).__name__, int(t.tlv_type), t.packet_len, pk, id(t))
+
+
+def _x_list_view(l):
+    return None if l is None else (id(l), [_x_item_view(t) for t in l])
+
+
+def _x_view(kind, p):
+    v = [h5._fields(p.pdu_header), p.packet_len, p.pdu_data_field_len, p.header_len, p.pdu_file_directive.directive_param_field_len,
+         _pack(p)]
+    if kind == "fin":
+        q = p.finished_params
+        v += [int(q.condition_code), int(q.delivery_code), int(q.file_status), _x_item_view(p.fault_location),
+              _x_list_view(p.file_store_responses), _x_item_view(q.fault_location), _x_list_view(q.file_store_responses)]
+    elif kind == "eof":
+        v += [int(p.condition_code), bytes(p.file_checksum), p.file_size, _x_item_view(p.fault_location)]
+    else:
+        v += [B._mp_fields(p.params), _x_list_view(p.options), bytes(p._source_file_name_lv.value), bytes(p._dest_file_name_lv.value)]
+    return v
+
+
+def _x_consistent(p):
+    """0 when the reported lengths are those of the packed octets and pack is repeatable, else a code"""
+    p1, p2 = _pack(p), _pack(p)
+    if p1 != p2:
+        return 5
+    if p1[0] == 0:
+        n = len(p1) - 1
+        if p.packet_len != n or p.pdu_header.packet_len != n or p.pdu_header.pdu_data_field_len != n - p.pdu_header.header_len:
+            return 2
+    return 0
+
+
+def explore(a):
+    sub = a[0][0] if a and a[0] else -1
+    if sub != 0:
+        raise RuntimeError("bad exploration")
+    kind, target, nitems = X_KINDS[a[0][1]], a[0][2], a[0][3]
+    nc = 3 + NCTOR[kind]
+    part, item_ls, rest = a[1:1 + nc], a[1 + nc:1 + nc + nitems], a[1 + nc + nitems:]
+    items = [_x_item(l) for l in item_ls]
+    iv0 = [_x_item_view(t) for t in items]
+    if target == 2:
+        # construction with the items inside the caller's FinishedParams
+        conf = _mkconf(part[0], part[1], 0)
+        params = FinishedParams(condition_code=B._enum(ConditionCode, g(part[3], 0)), delivery_code=B._enum(DeliveryCode, g(part[3], 1)),
+                                file_status=B._enum(FileStatus, g(part[3], 2)), fault_location=B._fault(part[4]),
+                                file_store_responses=items)
+        c0 = A._conf_lists(conf)
+        try:
+            p = FinishedPdu(conf, params)
+        except ValueError:
+            p = None
+        if [_x_item_view(t) for t in items] != iv0 or A._conf_lists(conf) != c0 or params.file_store_responses is not items:
+            return [[0, 4]]
+        if p is None:
+            return [[1]]
+        c = _x_consistent(p)
+        return [[1]] if c == 0 else [[0, c]]
+    st = build(kind, part)
+    p = st.p
+    for o in rest[:-1] if rest else []:           # a few ordinary operations first
+        do_op(kind, st, o)
+    s0 = _x_view(kind, p)
+    c = _x_consistent(p)
+    lst = items
+    try:
+        if target == 0:
+            if kind == "fin": p.file_store_responses = lst
+            else: p.options = lst
+        else:
+            p.fault_location = items[0] if items else None
+        raised = False
+    except ValueError:
+        raised = True
+    s1 = _x_view(kind, p)
+    if [_x_item_view(t) for t in items] != iv0 or len(lst) != len(iv0):
+        return [[0, 4]]           # the caller's items / list were modified
+    if raised:
+        if s1 != s0:
+            return [[0, 1]]       # refused, yet something changed
+    elif c == 0 and _x_consistent(p) != 0:
+        return [[0, _x_consistent(p)]]
+    # the next ordinary operation (the last of `rest`), then the same questions once more
+    if rest:
+        s1 = _x_view(kind, p)
+        c1 = _x_consistent(p)
+        r = do_op(kind, st, rest[-1])
+        if r and r[0] == 1 and rest[-1][0] not in (120, 121, 122) and _x_view(kind, p) != s1:
+            return [[0, 6]]
+        if c1 == 0 and rest[-1][0] in RECALC[kind] and (not r or r[0] == 0) and _x_consistent(p) != 0:
+            return [[0, 7]]
+    return [[1]]
+
+
+X_WHAT = {1: "the assignment was refused, yet the PDU's views / lengths / packed octets changed",
+          2: "after the accepted assignment packet_len / the data-field length are not those of the packed octets",
+          4: "the caller's TLV objects (or its list / PduConfig) were modified", 5: "two packs in a row differ",
+          6: "the following operation was refused, yet the PDU changed", 7: "after the following (accepted) assignment the reported "
+          "lengths are not those of the packed octets"}
+
+
+def explore_oracle(case, ires):
+    op, a = case
+    if ires == [[0], [1]]:
+        return None
+    kind, target = X_KINDS[a[0][1]], a[0][2]
+    what = ["%s = [items]" % ("file_store_responses" if kind == "fin" else "options"), "fault_location = item",
+            "FinishedPdu(conf, FinishedParams(file_store_responses=[items]))"][target]
+    nc = 3 + NCTOR[kind]
+    d = ires[1] if len(ires) > 1 else ires[0]
+    return ("C11/%s.%s/foreign-tlv" % (NAME[kind], ["list-setter", "fault_location", "__init__"][target]),
+            "%s with TLV objects %s (styles: 0 EntityIdTlv, 1/8 CfdpTlv, 2 FlowLabelTlv, 3 MessageToUserTlv, 4 FaultHandlerOverrideTlv, "
+            "5 FileStoreRequestTlv, 6 FileStoreResponseTlv, 7 subclass of EntityIdTlv): %s" % (
+                what, [x[:6] for x in a[1 + nc:1 + nc + a[0][3]]], X_WHAT.get(d[1] if len(d) > 1 else -1, "the adapter ended with %s" % (ires[:2],))))
+
+
+def explore_cases(tier, rng):
+    big = tier == "thorough"
+    cases = []
+
+    def item(style):
+        if style == 1:
+            return [1, rng.choice(h8.TLV_TYPES)] + h8.rbytes(rng, rng.choice([0, 1, 2, 8]))
+        if style == 4:
+            return [4, rng.randrange(16), rng.randrange(4)]
+        return [style] + h8.rbytes(rng, rng.choice([1, 1, 2, 4, 8]))
+
+    for kind_i, kind in enumerate(X_KINDS):
+        targets = {"fin": (0, 1, 2), "eof": (1,), "md": (0,)}[kind]
+        for target, style, rep in itertools.product(targets, range(X_ITEM_STYLES), range(6 if big else 2)):
+            c = gen_ctor(kind, rng, path=rng.choice([0, 0, 1, 2] if target != 2 else [0]))
+            if kind in ("fin", "eof") and rng.random() < 0.7:      # a condition code with which the fault location is transmitted
+                (c[3] if kind == "fin" else c[4])[0 if kind == "fin" else 1] = rng.choice([4, 6, 8])
+            if target == 1:
+                items = [item(style)]
+            else:
+                n = rng.choice([1, 1, 2, 3])
+                k = rng.randrange(n)
+                items = [item(style) if i == k else item(rng.choice([6, 6, style]) if kind == "fin" else rng.choice([1, style])) for i in range(n)]
+            pre = gen_ops(kind, rng, c[1][1], rng.randrange(0, 3))
+            pre = [o for o in pre if o and o[0] not in (102,)]
+            nxt = rng.choice([[120], gen_specific(kind, rng, c[1][1]), gen_specific(kind, rng, c[1][1]), [100, rng.randrange(2), rng.randrange(4)]])
+            cases.append((1399, [[0, kind_i, target, len(items)]] + c + items + (pre + [nxt] if target != 2 else [])))
+    return cases
 
 
 # ------------------------------------------------------------------ value-level reading of a history (oracle side)
@@ -617,6 +823,9 @@ def v_step(v, o):
             w.ids[0:4] = [g(r, 0), g(r, 1), g(r, 2), g(r, 3)]
         elif code == 108: w.meta = x
         elif code == 109: w.ptype = x
+        elif code == 110:
+            refuse = not (x in (0, 1, 2) and 0 <= g(r, 1) < 256 ** w.ids[2 * x + 1])
+            if x in (0, 1, 2): w.ids[2 * x] = g(r, 1)
         elif code == 130: w.cflags[x if 0 <= x <= 3 else 4] = g(r, 1)
         elif code == 131:
             refuse = not h5.ubf_ok(x, g(r, 1)); w.cids[4], w.cids[5] = x, g(r, 1)
@@ -857,6 +1066,9 @@ def gen_generic(rng, v_large=None):
     if r < 0.71:
         w = rng.choice(WIDTHS); w2 = w if rng.random() < 0.8 else rng.choice(WIDTHS)
         return [107, rng.randrange(256 ** w), w, rng.randrange(256 ** w2), w2]
+    if r < 0.715:
+        which = rng.randrange(3)
+        return [110, which, rng.choice([0, 1, 255, 256, 2 ** 16, 2 ** 32 - 1, 2 ** 32, 2 ** 61, 2 ** 64 - 1, 2 ** 64, -1, rng.randrange(2 ** 64)])]
     if r < 0.73: return [108, rng.randrange(2)]
     if r < 0.75: return [109, rng.randrange(2)]
     if r < 0.84: return [120]
@@ -873,14 +1085,14 @@ def rsize(rng, large):
 
 def name_end4(rng, n):
     """valid UTF-8 of exactly n octets (n >= 4) ending in a 4-octet sequence"""
-    return h8.rname(rng, n - 4) + rng.choice([c for c in h8.CH if len(c) == 4])
+    return B.rname(rng, n - 4) + rng.choice([c for c in h8.CH if len(c) == 4])
 
 
 def rname(rng):
     n = rng.choice([0, 1, 2, 5, 12, 24, 63, 64, 127, 128, 254, 255, 256, 300])
     if n >= 4 and rng.random() < 0.4:
         return name_end4(rng, n)
-    return h8.rname(rng, n)
+    return B.rname(rng, n)
 
 
 def gen_specific(kind, rng, large):
@@ -940,12 +1152,31 @@ def gen_specific(kind, rng, large):
     return [4, rng.choice([0, 11, 4, 6])]
 
 
+def collision_burst(rng):
+    """one 8-octet ID / sequence-number object of the PDU edited in place along values CPython hashes alike (c05.colliding),
+    the PDU packed after every step"""
+    v = rng.choice(h5.COLL_SEEDS + [rng.randrange(h5.M61), rng.randrange(2 ** 64)])
+    chain = [v] + rng.sample(h5.colliding(v), rng.randrange(1, 4))
+    if rng.random() < 0.5:
+        which = 2
+        ops = [[106, rng.choice(h5.COLL_SEEDS), 8]]
+    else:
+        which = rng.randrange(2)
+        ops = [[107, rng.choice(h5.COLL_SEEDS), 8, rng.choice(h5.COLL_SEEDS), 8]]
+    ops.append([120])
+    for x in chain:
+        ops += [[110, which, x], [120]]
+    return ops
+
+
 def gen_ops(kind, rng, large, n=None):
     n = rng.randrange(0, 11) if n is None else n
     ops = []
     p_spec = {"eof": 0.55, "ack": 0.4, "prompt": 0.3, "ka": 0.35, "nak": 0.7, "md": 0.7, "fin": 0.7}[kind]
     for _ in range(n):
-        if ops and rng.random() < 0.08:
+        if rng.random() < 0.04:
+            ops += collision_burst(rng)
+        elif ops and rng.random() < 0.08:
             ops.append(list(ops[-1]))                       # the same assignment twice
         elif ops and kind in ("eof", "fin") and ops[-1][0] == 1 and rng.random() < 0.5:
             # an entity ID that compares equal (EntityIdTlv.__eq__ is numerical) but has another length
